@@ -715,6 +715,24 @@ pub fn generate(repo: &PathBuf) -> Result<String, String> {
         let missing_default = c.methods.iter().any(|m| m == "exists");
         s.push_str(&format!("/-- {rel} `NodeRegistry::load`: a missing file / an empty file gives the default registry -/\ndef registryMissingIsDefault : Bool := {}\ndef registryEmptyIsDefault : Bool := {}\n", lean_bool(missing_default), lean_bool(empty_default)));
         s.push_str(&format!("def registryLoadSites : List String := {}\n", lean_strs(&sites(&f.block, &no_env, false, false))));
+        // save: the file must be emptied before the new JSON is written (File::create, truncate(true) or set_len)
+        let f = impl_fn(&file, "NodeRegistry", None, "save")?;
+        let c = calls_in_block(&f.block);
+        let body = toks(&f.block);
+        let uses_create = c.paths.iter().any(|p| p.ends_with("File::create")) || body.contains("fs::write(");
+        let uses_open_options = c.paths.iter().any(|p| p.ends_with("OpenOptions::new"));
+        let truncates = if uses_open_options {
+            body.contains(".truncate(true)") || c.methods.iter().any(|m| m == "set_len")
+        } else if uses_create {
+            true
+        } else {
+            return Err("NodeRegistry::save: neither File::create/fs::write nor OpenOptions found".into());
+        };
+        if !c.methods.iter().any(|m| m == "write_all") && !body.contains("fs::write(") {
+            return Err("NodeRegistry::save: no write_all of the JSON".into());
+        }
+        s.push_str(&format!("/-- `NodeRegistry::save` empties the file before writing the JSON (`File::create` / `truncate(true)` / `set_len`) -/\ndef registrySaveTruncates : Bool := {}\n", lean_bool(truncates)));
+        s.push_str(&format!("def registrySaveSites : List String := {}\n", lean_strs(&sites(&f.block, &no_env, false, false))));
         let f = impl_fn(&file, "NodeRegistry", None, "from_json")?;
         s.push_str(&format!("def registryFromJsonSites : List String := {}\n\n", lean_strs(&sites(&f.block, &no_env, false, false))));
     }
